@@ -1,63 +1,219 @@
 ----------------------------- MODULE SentinelOps -----------------------------
 (***************************************************************************)
-(* Composition of the rule modules in the default slot chain of            *)
-(* sentinel-golang (growth item 1 of DESIGN section 4): one resource       *)
-(* guarded at the same time by a reject-mode flow rule (default statistic  *)
-(* window), an isolation rule, a hot-parameter concurrency rule on         *)
-(* argument 0 and an error-count circuit breaker.  The rule-check slots    *)
-(* run in the order flow -> isolation -> hotspot -> circuit breaker; the   *)
-(* first one that blocks determines the block type and NO later slot runs  *)
-(* (so a request rejected by the flow rule is not the breaker's probe);    *)
-(* only admitted requests are counted by any module.                       *)
+(* Composition of the rule modules in the default global slot chain of     *)
+(* sentinel-golang (growth item 1 of DESIGN section 4).                    *)
+(*                                                                         *)
+(* Several resources, each guarded at the same time by                     *)
+(*   - a reject-mode flow rule on the default statistic window,            *)
+(*   - an isolation (concurrency) rule,                                    *)
+(*   - a hot-parameter CONCURRENCY rule on argument 0,                     *)
+(*   - a hot-parameter QPS rule in reject mode on argument 0 (token bucket *)
+(*     per value: the operators of HotParamQpsOps are REUSED, instantiated *)
+(*     as HQ; thresholds, burst and duration are rule parameters; the      *)
+(*     parameter cache is far from its capacity here, so only the stored   *)
+(*     cells matter - their recency order is not part of the state),       *)
+(*   - an error-count circuit breaker (minimum amount 1, probe number 0,   *)
+(*     one statistic bucket that does not expire within a scenario),       *)
+(* and, in front of them, the SYSTEM rules of the whole process            *)
+(* (system.Concurrency and system.InboundQPS) on the global inbound node.  *)
+(*                                                                         *)
+(* The rule-check slots run in the order                                   *)
+(*     system -> flow -> isolation -> hotspot -> circuit breaker;          *)
+(* the first one that blocks determines the block type and NO later slot   *)
+(* runs.  Only admitted requests are counted by any module, with ONE       *)
+(* exception that is the design of the code: the token bucket of a         *)
+(* hot-parameter QPS rule is charged when the hotspot slot is PASSED, so a *)
+(* request that passes it and is then refused by the circuit breaker has   *)
+(* spent its tokens (nothing else).  System rules gate INBOUND entries     *)
+(* only; an outbound entry is never system-blocked and is not counted on   *)
+(* the inbound node.                                                       *)
 (*                                                                         *)
 (* Pure operators over a state record                                      *)
-(*   S = [now, ref, live, cb]                                              *)
-(* ref  : WindowRef reference of admitted tokens (one bucket = one tick of *)
-(*        500 ms; the flow rule reads the 2-bucket window)                 *)
-(* live : set of [id, arg] - admitted, not yet exited entries              *)
-(* cb   : [st, retryAt, tot, err] of the breaker (single statistic bucket  *)
-(*        that does not expire within a scenario, probe number 0)          *)
-(* and a rule record R = [flow, iso, hot, cbE, cbTO] (-1: no such rule).   *)
+(*   S = [now, ic, iref, res]                                              *)
+(* now  : time in ticks of 500 ms                                          *)
+(* ic   : in-flight gauge of the global inbound node                       *)
+(* iref : WindowRef reference of the tokens of admitted INBOUND entries    *)
+(* res  : resource -> [ref, rc, live, hcnt, ht, hk, cb]                    *)
+(*   ref  : WindowRef reference of admitted tokens (bucket = one tick; the *)
+(*          flow rule reads the 2-bucket window)                           *)
+(*   rc   : in-flight gauge of the resource (read by the isolation rule)   *)
+(*   live : set of [id, arg, inb, hc, err] - admitted, not yet exited;     *)
+(*          hc = the entry occupies a unit of the hot-parameter counters   *)
+(*          NOW in use (it was counted on them when it was admitted);      *)
+(*          err = an error was reported on it (api.TraceError)             *)
+(*   hcnt : value -> units in use on the hot-parameter counters (absent =  *)
+(*          0)                                                             *)
+(*   ht, hk : value -> time of the last refill / remaining tokens of the   *)
+(*          hot-parameter QPS rule                                         *)
+(*   cb   : [st, retryAt, tot, err] of the breaker                         *)
+(* and a rule record                                                       *)
+(*   R = [sys |-> [conc, qps], res |-> resource -> [flow, iso, hot, hq,    *)
+(*        hqB, hqD, cbE, cbTO]]       (-1: no such rule; hqD in seconds)   *)
+(* The gauges ic / rc / hcnt are what the code reads; that they equal the  *)
+(* sets of live entries is an invariant of Sentinel.tla.                   *)
+(*                                                                         *)
+(* A variant record V selects the design (Design) or a deliberately broken *)
+(* composition (the mutants of Sentinel.tla); Sentinel_Trace uses Design.  *)
 (* Used by Sentinel (model checking) and Sentinel_Trace (real executions). *)
 (***************************************************************************)
 EXTENDS WindowRef
 
-LiveFor(S, arg) == { e \in S.live : e.arg = arg }
+HQ == INSTANCE HotParamQpsOps
 
-FlowBlocks(S, R, b) == R.flow >= 0 /\ RefSum(S.ref, 1, S.now, 2, "pass") + b > R.flow
-IsoBlocks(S, R, b)  == R.iso >= 0 /\ Cardinality(S.live) + b > R.iso
-HotBlocks(S, R, arg) == R.hot >= 0 /\ arg # "none" /\ Cardinality(LiveFor(S, arg)) + 1 > R.hot
-CbBlocks(S, R)      == R.cbE >= 0 /\ (S.cb.st = "H" \/ (S.cb.st = "O" /\ S.now < S.cb.retryAt))
-CbProbes(S, R)      == R.cbE >= 0 /\ S.cb.st = "O" /\ S.now >= S.cb.retryAt
+TickMs == 500
+DefaultOrder == <<"system", "flow", "isolation", "hotspot", "breaker">>
+Design == [order |-> DefaultOrder, sysOut |-> FALSE, isoReset |-> FALSE, blockedCounts |-> FALSE,
+           exitCurrent |-> FALSE, cbForget |-> FALSE, shared |-> FALSE]
 
-\* the decision of the whole chain: [ok, bt]
-Decide(S, R, b, arg) ==
-    IF FlowBlocks(S, R, b) THEN [ok |-> FALSE, bt |-> "flow"]
-    ELSE IF IsoBlocks(S, R, b) THEN [ok |-> FALSE, bt |-> "isolation"]
-    ELSE IF HotBlocks(S, R, arg) THEN [ok |-> FALSE, bt |-> "hotspot"]
-    ELSE IF CbBlocks(S, R) THEN [ok |-> FALSE, bt |-> "breaker"]
-    ELSE [ok |-> TRUE, bt |-> "none"]
+\* small finite maps value -> Int, absent = 0, kept canonical (no zero cells)
+Get(f, v) == IF v \in DOMAIN f THEN f[v] ELSE 0
+Upd(f, v, x) ==
+    LET D == IF x = 0 THEN DOMAIN f \ {v} ELSE DOMAIN f \cup {v} IN
+    IF D = {} THEN << >> ELSE [y \in D |-> IF y = v THEN x ELSE f[y]]
 
-\* state after Entry(id, b, arg)
-AfterEntry(S, R, id, b, arg) ==
-    IF ~Decide(S, R, b, arg).ok THEN S               \* a blocked request leaves every module untouched
-    ELSE [S EXCEPT !.ref = RefAdd(S.ref, {"pass"}, 1, S.now, "pass", b),
-                   !.live = @ \cup {[id |-> id, arg |-> arg]},
-                   !.cb = IF CbProbes(S, R) THEN [@ EXCEPT !.st = "H"] ELSE @]
+NoCb == [st |-> "C", retryAt |-> 0, tot |-> 0, err |-> 0]
+InitRes == [ref |-> << >>, rc |-> 0, live |-> {}, hcnt |-> << >>, ht |-> << >>, hk |-> << >>, cb |-> NoCb]
+InitState(t0, RS) == [now |-> t0, ic |-> 0, iref |-> << >>, res |-> [r \in RS |-> InitRes]]
+NoRule == [flow |-> -1, iso |-> -1, hot |-> -1, hq |-> -1, hqB |-> 0, hqD |-> 1, cbE |-> -1, cbTO |-> 1]
+NoSys == [conc |-> -1, qps |-> -1]
 
-\* state after Exit(id) of an admitted entry, err = the request failed
-AfterExit(S, R, id, err) ==
-    LET c0 == S.cb
+LiveFor(X, arg) == { e \in X.live : e.arg = arg }
+Window(ref, now) == RefSum(ref, 1, now, 2, "pass")
+
+(***************************************************************************)
+(* the slots                                                               *)
+(***************************************************************************)
+SysViolated(S, R) == \/ R.sys.conc >= 0 /\ S.ic >= R.sys.conc
+                     \/ R.sys.qps >= 0 /\ Window(S.iref, S.now) >= R.sys.qps
+SysBlocks(V, S, R, ty) == (ty = "in" \/ V.sysOut) /\ SysViolated(S, R)
+FlowBlocks(X, RR, now, b) == RR.flow >= 0 /\ Window(X.ref, now) + b > RR.flow
+IsoBlocks(X, RR, b)  == RR.iso >= 0 /\ X.rc + b > RR.iso
+\* units in use for a value: the counters of the resource's own rule (broken variant: one counter for all resources)
+RECURSIVE SumCnt(_, _, _)
+SumCnt(S, RS, arg) == IF RS = {} THEN 0 ELSE LET r == CHOOSE x \in RS : TRUE IN Get(S.res[r].hcnt, arg) + SumCnt(S, RS \ {r}, arg)
+HotFigure(V, S, r, arg) == IF V.shared THEN SumCnt(S, DOMAIN S.res, arg) ELSE Get(S.res[r].hcnt, arg)
+HotConcBlocks(V, S, RR, r, arg) == RR.hot >= 0 /\ arg # "none" /\ HotFigure(V, S, r, arg) + 1 > RR.hot
+CbBlocks(X, RR, now) == RR.cbE >= 0 /\ (X.cb.st = "H" \/ (X.cb.st = "O" /\ now < X.cb.retryAt))
+CbProbes(X, RR, now) == RR.cbE >= 0 /\ X.cb.st = "O" /\ now >= X.cb.retryAt
+
+\* the hot-parameter QPS rule as a configuration of HotParamQpsOps; the cache of the rule never fills up here
+HqCf(RR) == [mode |-> "reject", T |-> RR.hq, B |-> RR.hqB, D |-> RR.hqD * 1000, MQ |-> 0, items |-> << >>, cap |-> HQ!LibCapBase]
+AsCache(cells) == [ord |-> << >>, val |-> cells, pos |-> [y \in DOMAIN cells |-> 0], size |-> Cardinality(DOMAIN cells)]
+\* the hotspot slot: the concurrency rule is consulted first, then the QPS rule (which charges its bucket when it passes)
+HotStep(V, ht, hk, S, RR, r, now, b, arg) ==
+    IF arg = "none" THEN [blocked |-> FALSE, ht |-> ht, hk |-> hk]
+    ELSE IF HotConcBlocks(V, S, RR, r, arg) THEN [blocked |-> TRUE, ht |-> ht, hk |-> hk]
+    ELSE IF RR.hq < 0 THEN [blocked |-> FALSE, ht |-> ht, hk |-> hk]
+    ELSE LET st == HQ!RejectStep(HqCf(RR), AsCache(ht), AsCache(hk), arg, b, now * TickMs)
+         IN  [blocked |-> ~st.ok, ht |-> st.tc.val, hk |-> st.kc.val]
+
+\* walk the rule-check slots in the given order; result [ok, bt, ht, hk] (ht / hk: the token cells after the checks)
+RECURSIVE Walk(_, _, _, _, _, _, _, _)
+Walk(V, order, S, R, r, q, ht, hk) ==
+    LET X == S.res[r]  RR == R.res[r] IN
+    IF order = << >> THEN [ok |-> TRUE, bt |-> "none", ht |-> ht, hk |-> hk]
+    ELSE LET s == Head(order) IN
+         IF s = "hotspot"
+           THEN LET hs == HotStep(V, ht, hk, S, RR, r, S.now, q.b, q.arg) IN
+                IF hs.blocked THEN [ok |-> FALSE, bt |-> s, ht |-> hs.ht, hk |-> hs.hk]
+                ELSE Walk(V, Tail(order), S, R, r, q, hs.ht, hs.hk)
+         ELSE IF \/ s = "system" /\ SysBlocks(V, S, R, q.ty)
+                 \/ s = "flow" /\ FlowBlocks(X, RR, S.now, q.b)
+                 \/ s = "isolation" /\ IsoBlocks(X, RR, q.b)
+                 \/ s = "breaker" /\ CbBlocks(X, RR, S.now)
+           THEN [ok |-> FALSE, bt |-> s, ht |-> ht, hk |-> hk]
+           ELSE Walk(V, Tail(order), S, R, r, q, ht, hk)
+
+\* a request q = [b, arg, ty] on resource r
+ChainV(V, S, R, r, q) == Walk(V, V.order, S, R, r, q, S.res[r].ht, S.res[r].hk)
+DecideV(V, S, R, r, q) == LET c == ChainV(V, S, R, r, q) IN [ok |-> c.ok, bt |-> c.bt]
+Decide(S, R, r, q) == DecideV(Design, S, R, r, q)
+
+(***************************************************************************)
+(* the operations                                                          *)
+(***************************************************************************)
+\* state after Entry(id) of request q on r
+AfterEntryV(V, S, R, r, id, q) ==
+    LET c == ChainV(V, S, R, r, q)
+        X == S.res[r]  RR == R.res[r]
+        counted == RR.hot >= 0 /\ q.arg # "none"
+        \* what the check phase leaves behind whatever the outcome
+        Xc == [X EXCEPT !.ht = c.ht, !.hk = c.hk,
+                        !.hcnt = IF V.blockedCounts /\ ~c.ok /\ counted THEN Upd(@, q.arg, Get(@, q.arg) + 1) ELSE @]
+    IN
+    IF ~c.ok THEN [S EXCEPT !.res[r] = Xc]
+    ELSE [S EXCEPT !.ic   = IF q.ty = "in" THEN @ + 1 ELSE @,
+                   !.iref = IF q.ty = "in" THEN RefAdd(@, {"pass"}, 1, S.now, "pass", q.b) ELSE @,
+                   !.res[r] = [Xc EXCEPT !.ref  = RefAdd(@, {"pass"}, 1, S.now, "pass", q.b),
+                                         !.rc   = @ + 1,
+                                         !.live = @ \cup {[id |-> id, arg |-> q.arg, inb |-> q.ty = "in", hc |-> counted, err |-> FALSE]},
+                                         !.hcnt = IF counted THEN Upd(@, q.arg, Get(@, q.arg) + 1) ELSE @,
+                                         !.cb   = IF CbProbes(X, RR, S.now) THEN [@ EXCEPT !.st = "H"] ELSE @]]
+AfterEntry(S, R, r, id, q) == AfterEntryV(Design, S, R, r, id, q)
+
+IsLive(S, r, id) == \E e \in S.res[r].live : e.id = id
+EntryOf(S, r, id) == CHOOSE e \in S.res[r].live : e.id = id
+
+\* an error is reported on a live entry (api.TraceError / SetError)
+AfterTrace(S, r, id) ==
+    IF ~IsLive(S, r, id) THEN S
+    ELSE [S EXCEPT !.res[r].live = { IF e.id = id THEN [e EXCEPT !.err = TRUE] ELSE e : e \in @ }]
+
+\* THE completion of a live entry; xerr = the Exit call carries an error.  (Any call on an entry that has completed
+\* changes nothing: there is no operator for it.)
+AfterExitV(V, S, R, r, id, xerr) ==
+    LET X == S.res[r]  RR == R.res[r]
+        e == EntryOf(S, r, id)
+        err == e.err \/ xerr
+        c0 == X.cb
         c1 == [c0 EXCEPT !.tot = @ + 1, !.err = @ + (IF err THEN 1 ELSE 0)]
-        c2 == IF R.cbE < 0 THEN c0
+        c2 == IF RR.cbE < 0 THEN c0
               ELSE IF c1.st = "O" THEN c1
-              ELSE IF c1.st = "H" THEN (IF err THEN [c1 EXCEPT !.st = "O", !.retryAt = S.now + R.cbTO]
-                                        ELSE [st |-> "C", retryAt |-> c1.retryAt, tot |-> 0, err |-> 0])
-              ELSE IF c1.tot >= 1 /\ c1.err >= R.cbE THEN [c1 EXCEPT !.st = "O", !.retryAt = S.now + R.cbTO]
+              ELSE IF c1.st = "H" THEN (IF err THEN [c1 EXCEPT !.st = "O", !.retryAt = S.now + RR.cbTO]
+                                        ELSE NoCb)
+              ELSE IF c1.tot >= 1 /\ c1.err >= RR.cbE THEN [c1 EXCEPT !.st = "O", !.retryAt = S.now + RR.cbTO]
               ELSE c1
-    IN  [S EXCEPT !.live = { e \in @ : e.id # id }, !.cb = c2]
+        \* the entry releases exactly the unit it occupies (the broken variant: whatever counter is current)
+        rel == IF V.exitCurrent THEN RR.hot >= 0 /\ e.arg # "none" ELSE e.hc
+    IN  [S EXCEPT !.ic = IF e.inb THEN @ - 1 ELSE @,
+                  !.res[r] = [X EXCEPT !.rc = @ - 1, !.live = @ \ {e}, !.cb = c2,
+                                       !.hcnt = IF rel THEN Upd(@, e.arg, Get(@, e.arg) - 1) ELSE @]]
+AfterExit(S, R, r, id, xerr) == AfterExitV(Design, S, R, r, id, xerr)
 
-AfterTick(S, d) == [S EXCEPT !.now = @ + d, !.ref = Prune(@, 1, 2, S.now + d)]
+AfterTick(S, d) ==
+    [S EXCEPT !.now = @ + d, !.iref = Prune(@, 1, 2, S.now + d),
+              !.res = [r \in DOMAIN @ |-> [@[r] EXCEPT !.ref = Prune(@, 1, 2, S.now + d)]]]
 
-InitState(t0) == [now |-> t0, ref |-> << >>, live |-> {}, cb |-> [st |-> "C", retryAt |-> 0, tot |-> 0, err |-> 0]]
+\* A reload replaces the rule(s) of ONE module for one resource (mod = "sys": the system rules of the process, r is
+\* ignored).  val: flow / iso / hot [v], hq [hq, hqB, hqD], cb [cbE, cbTO], sys [conc, qps].
+NewRules(R, r, mod, val) ==
+    CASE mod = "sys"  -> [R EXCEPT !.sys = val]
+      [] mod = "flow" -> [R EXCEPT !.res[r].flow = val.v]
+      [] mod = "iso"  -> [R EXCEPT !.res[r].iso = val.v]
+      [] mod = "hot"  -> [R EXCEPT !.res[r].hot = val.v]
+      [] mod = "hq"   -> [R EXCEPT !.res[r].hq = val.hq, !.res[r].hqB = val.hqB, !.res[r].hqD = val.hqD]
+      [] mod = "cb"   -> [R EXCEPT !.res[r].cbE = val.cbE, !.res[r].cbTO = val.cbTO]
+
+\* What a reload does to the runtime state.  Entries in flight keep occupying what they occupy:
+\*  flow / isolation / system rules read the statistics of the resource / of the process - untouched;
+\*  hot-parameter concurrency: a rule whose threshold merely changes keeps its counters; a rule that was absent
+\*    starts new counters at zero, and the entries in flight do not occupy units of THOSE (hc := FALSE): they
+\*    will not release any either;
+\*  hot-parameter QPS: the buckets are kept unless the rule was absent or its duration changes;
+\*  breaker: an unchanged rule keeps its breaker (state, deadline, counters); a changed one starts Closed on the
+\*    same counters; a rule that was absent starts from scratch.
+AfterReloadV(V, S, R, r, mod, val) ==
+    IF mod \in {"sys", "flow"} THEN S
+    ELSE LET X == S.res[r]  RR == R.res[r] IN
+    CASE mod = "iso" -> IF V.isoReset THEN [S EXCEPT !.res[r].rc = 0] ELSE S
+      [] mod = "hot" -> IF RR.hot >= 0 /\ val.v >= 0 THEN S
+                        ELSE [S EXCEPT !.res[r].hcnt = << >>,
+                                       !.res[r].live = { [e EXCEPT !.hc = FALSE] : e \in @ }]
+      [] mod = "hq"  -> IF RR.hq >= 0 /\ val.hq >= 0 /\ RR.hqD = val.hqD THEN S
+                        ELSE [S EXCEPT !.res[r].ht = << >>, !.res[r].hk = << >>]
+      [] mod = "cb"  -> IF RR.cbE = val.cbE /\ RR.cbTO = val.cbTO /\ ~V.cbForget THEN S
+                        ELSE IF RR.cbE >= 0 /\ val.cbE >= 0 /\ ~V.cbForget
+                               THEN [S EXCEPT !.res[r].cb = [NoCb EXCEPT !.tot = X.cb.tot, !.err = X.cb.err]]
+                        ELSE [S EXCEPT !.res[r].cb = NoCb]
+AfterReload(S, R, r, mod, val) == AfterReloadV(Design, S, R, r, mod, val)
 =============================================================================
